@@ -40,11 +40,26 @@ def run(seed=0):
        and raises(lambda: struct.unpack("!d", b"x" * 7), struct.error) and raises(lambda: struct.unpack("!dd", b"x" * 15), struct.error))
     ok("'!bii' is s8 ++ be32 ++ be32 (9 bytes, no padding)", all(struct.pack("!bii", a, b, c) == struct.pack("!b", a) + struct.pack("!i", b) + struct.pack("!i", c) and struct.calcsize("!bii") == 9
                                                                for a, b, c in [(rng.randrange(-128, 128), rng.choice(i32), rng.choice(i32)) for _ in range(40)]))
+    ok("unsigned fields are the signed codec shifted by 2**width ('!B', '!I', '!L'; no padding in a multi-field '!' format)",
+       all(struct.pack("!I", u) == struct.pack("!i", u - 2**32 if u >= 2**31 else u) and struct.unpack("!I", struct.pack("!I", u))[0] == u for u in (0, 1, 2**31 - 1, 2**31, 2**32 - 1))
+       and all(struct.pack("!B", u) == struct.pack("!b", u - 256 if u >= 128 else u) for u in (0, 127, 128, 255)) and struct.pack("!L", 5) == struct.pack("!I", 5) and struct.calcsize("!bIi") == 9
+       and raises(lambda: struct.pack("!I", -1), struct.error) and raises(lambda: struct.pack("!I", 2**32), struct.error) and raises(lambda: struct.pack("!B", 256), struct.error))
     ok("'!b' range is -128..127", raises(lambda: struct.pack("!b", 128), struct.error) and raises(lambda: struct.pack("!b", -129), struct.error) and len(struct.pack("!b", -128)) == 1)
     pats = [0, 1 << 63, 0x7FF0000000000000, 0xFFF0000000000000, 0x7FF8000000000001, 0x7FF0000000000001, 0x3FF0000000000000] + [rng.randrange(1 << 64) for _ in range(40)]
     # quiet/signalling NaN payload preservation through unpack->pack (what the serializer relies on)
     ok("be64: pack(unpack(b)) == b for all 64-bit patterns incl. NaN payloads", all(struct.pack("!d", struct.unpack("!d", p.to_bytes(8, "big"))[0]) == p.to_bytes(8, "big") for p in pats))
     ok("'!dd' is be64 ++ be64", all(struct.pack("!dd", a, b) == struct.pack("!d", a) + struct.pack("!d", b) for a, b in [(1.5, -0.0), (float("inf"), float("nan"))]))
+    # mixed float/complex arithmetic as modelled in fparith: the float is widened to complex(x, 0.0); product and sum componentwise, each operation rounded
+    fl = [0.0, -0.0, 1.5, -2.25, 1e308, -1e308, 5e-324, float("inf"), float("-inf")] + [struct.unpack("!d", struct.pack("!Q", rng.randrange(1 << 64)))[0] for _ in range(30)]
+    fl = [x for x in fl if x == x]
+    bits = lambda x: struct.pack("!d", x)
+    same = lambda c, re, im: (c.real != c.real or bits(c.real) == bits(re)) and (c.imag != c.imag or bits(c.imag) == bits(im))
+
+    def mixed_ok(x, y):
+        pre, pim = y * 0.0 - 0.0 * 1.0, y * 1.0 + 0.0 * 0.0          # complex(y, 0.0) * 1j
+        return same(y * 1j, pre, pim) and same(x + y * 1j, x + pre, 0.0 + pim) and same(x - y * 1j, x - pre, 0.0 - pim)
+
+    ok("float/complex mixed arithmetic: widening to complex(x, 0.0), componentwise rounded operations (non-NaN results bit-exact)", all(mixed_ok(x, y) for x in fl[:12] for y in fl))
     big = [2**31, -(2**31) - 1, 10**30, -(10**30), 2**64, 10**100]
     ok("dec: int(str(i).encode('ascii')) == i", all(int(str(i).encode("ascii")) == i for i in big + i32))
     ok("dec: str(i) of i > 2**31-1 has >= 10 chars; single digit iff 0..9", all(len(str(i)) >= 10 for i in big if i > 0) and all((len(str(i)) == 1) == (0 <= i <= 9) for i in i32))
